@@ -68,6 +68,10 @@ def build():
             v.global_dict_types.update(ast.literal_eval(a['GLOBAL_DICT_TYPES']))
         if 'CLASS_ATTR_TYPES' in a:
             v.class_attr_types.update(ast.literal_eval(a['CLASS_ATTR_TYPES']))
+        if 'FIELD_TYPES' in a:
+            v.field_types.update(ast.literal_eval(a['FIELD_TYPES']))
+        if 'ORACLES' in a:
+            v.oracles.update(ast.literal_eval(a['ORACLES']))
     return ix, cts, v
 
 
@@ -261,7 +265,7 @@ def report(pid: str, a, results: List[Dict[str, Any]], seed: int, wall: float, c
         lines.append(f'VIOLATION property={pid} replay={path}{tail}')
         print(f"  failed obligation {f['id']}: {f['clause']}")
         print(f"    inputs: {rep.get('inputs')}")
-        print(f"    native: {rep.get('outcome')} {rep.get('violations')}")
+        print(f"    native: {rep.get('status')} {rep.get('outcome')} {rep.get('violations')} {str(rep.get('detail'))[-300:]}")
         rc = 1
     for u in undecided:
         print(f'UNDECIDED {u}')
